@@ -60,6 +60,7 @@ def run_tv(ctx, n_cases, max_len=800):
     from bycycle.burst.utils import recompute_edges
     from bycycle import Bycycle
     cases = gen.corpus(ctx.seed * 1000 + 16, n_cases, max_len=max_len, kinds=['sine_bursts', 'asym', 'powerlaw_osc', 'two_osc', 'quantised', 'clipped', 'zeroed', 'noisy_flat'])
+    cases += gen.large_cases(ctx.seed * 1000 + 716, 1 if n_cases < 1000 else 4, 1 if n_cases < 1000 else 4)      # tables of hundreds / thousands of cycles
     rng = np.random.default_rng(ctx.seed + 161)
     recs, metas = [], []
     for i, c in enumerate(cases):
